@@ -28,6 +28,12 @@ inductive FView where
   deriving DecidableEq, Repr, Inhabited
 
 namespace F64
+/-- `sig · 2^(ex − 1075)`: the magnitude a significand (hidden bit included) and a biased
+exponent (≥ 1; subnormals use 1) denote -/
+def magValue (sig ex : Nat) : Rat :=
+  if 1075 ≤ ex then ((sig * 2 ^ (ex - 1075) : Nat) : Rat)
+  else mkRat (sig : Int) (2 ^ (1075 - ex))
+
 /-- IEEE-754 binary64 decoding of a 64-bit pattern -/
 def viewBits (bits : Nat) : FView :=
   let s : Nat := bits / 2 ^ 63 % 2
@@ -37,10 +43,7 @@ def viewBits (bits : Nat) : FView :=
   else
     let sig : Nat := if e = 0 then m else 2 ^ 52 + m      -- subnormals have no hidden bit
     let ex : Nat := if e = 0 then 1 else e                -- value = sig * 2^(ex - 1075)
-    let mag : Rat :=
-      if 1075 ≤ ex then ((sig * 2 ^ (ex - 1075) : Nat) : Rat)
-      else mkRat (sig : Int) (2 ^ (1075 - ex))
-    .fin (if s = 1 then -mag else mag)
+    .fin (if s = 1 then -(magValue sig ex) else magValue sig ex)
 end F64
 
 /-- `enum NNum` -/
